@@ -134,6 +134,7 @@ class SimThread(object):
         self.tracer   = None
         self.os_thread = None
         self.group    = None      # slow-node grouping (component name)
+        self.frozen   = False     # never scheduled (irrelevant pollers)
 
     def __deepcopy__(self, memo):
         return self
@@ -361,6 +362,9 @@ class Sim(object):
     # the scheduler loop (OS main thread)
     #
     def _runnable(self, t):
+        if t.frozen and t.what == 'sleep':
+            # only ever frozen while idle (never while holding a lock)
+            return False
         if t.state == READY:
             pass
         elif t.state == BLOCKED:
@@ -395,7 +399,8 @@ class Sim(object):
             runnable = [t for t in self.threads if self._runnable(t)]
             if not runnable:
                 dls = [t.deadline for t in self.threads
-                       if t.state == BLOCKED and t.deadline is not None]
+                       if t.state == BLOCKED and t.deadline is not None
+                       and not (t.frozen and t.what == 'sleep')]
                 dls += [u for g, u in self.stalled.items()]
                 if not dls:
                     return 'quiescent'
@@ -458,8 +463,19 @@ class Sim(object):
                 self.back.acquire()
             self.current = prev
 
+    def freeze(self, substr):
+        '''never schedule threads whose name contains `substr`'''
+        n = 0
+        for t in self.threads:
+            if substr in t.name:
+                t.frozen = True
+                n += 1
+        return n
+
     def teardown(self):
         self.tearing_down = True
+        for t in self.threads:
+            t.frozen = False
         self.kill_threads(list(self.threads))
         for save, restore in self.ctx_hooks:
             restore(self.root_proc)
